@@ -21,6 +21,8 @@ reads; everything after `|` is reconstruction data):
                             | chunked  (a file-like class whose read(n) returns 1..min(n, 64) bytes, sometimes exactly up to a record boundary)
                             | boundary (… whose read(n) returns exactly up to the next record boundary)
                             | bytearray | memoryview (… whose read returns that type instead of bytes)
+                            | greedy   (… whose read(n) returns MORE than n bytes when that many are left: an invalid
+                                        argument — OSError / ValueError at the record being read, never a panic)
   c17cminit    <alpha> <column>*K
   c17sminit    <alpha> <pyarg> <column>*K
 
@@ -836,6 +838,7 @@ class ShortReader:
     bytes before the end of the data (legal for a raw stream; only b"" means end of file).
       chunked  : 1..min(n, 64) bytes (seeded), one time in three exactly up to the next record boundary
       boundary : exactly up to the next record boundary (the rest of the data after the last one)
+      greedy   : n + 1..7 bytes (as far as the data goes): MORE than asked, which no reader may do
     `wrap` converts what read returns (bytes, bytearray, memoryview)."""
 
     def __init__(self, data, mode, seed, cuts, wrap=bytes):
@@ -844,14 +847,20 @@ class ShortReader:
         self.cuts = sorted(c for c in cuts if 0 < c < len(data)) + [len(data)]
         self.calls = 0
         self.short = 0      # reads that returned fewer bytes than asked although data was left
+        self.over = 0       # reads that returned MORE bytes than asked
 
     def read(self, n=-1):
         self.calls += 1
         left = len(self.data) - self.pos
         if n is None or n < 0:
             n = left
+        if self.mode == "greedy" and 0 < n < left:
+            out = self.data[self.pos:self.pos + n + self.rng.range(1, 7)]
+            self.over += 1
+            self.pos += len(out)
+            return self.wrap(out)
         n = min(n, left)
-        if n > 0:
+        if n > 0 and self.mode != "greedy":
             to_cut = next(c for c in self.cuts if c > self.pos) - self.pos
             if self.mode == "boundary":
                 k = min(n, to_cut)
@@ -867,7 +876,7 @@ class ShortReader:
         return self.wrap(out)
 
 
-FILELIKE = ("binary", "chunked", "boundary")          # read(0) returns bytes: accepted
+FILELIKE = ("binary", "chunked", "boundary", "greedy")          # read(0) returns bytes: accepted
 NOT_BYTES = ("text", "bytearray", "memoryview")        # read(0) returns something else: TypeError
 READERS = {"jaspar": "readJaspar", "jaspar16": "readJaspar16", "transfac": "readTransfac", "uniprobe": "readUniprobe"}
 FROM_COUNTS = ".pseudoUniform.toFreq.toWeight.toScoring.motif"
@@ -903,7 +912,7 @@ def exec_load(cx, head, tail):
         fobj = _io.BytesIO(data)
     elif kind == "text":
         fobj = _io.StringIO(data.decode("latin-1"))
-    elif kind in ("chunked", "boundary"):
+    elif kind in ("chunked", "boundary", "greedy"):
         fobj = ShortReader(data, kind, cseed, cuts)
     elif kind in ("bytearray", "memoryview"):
         fobj = ShortReader(data, "chunked", cseed, cuts, wrap=(bytearray if kind == "bytearray" else memoryview))
@@ -956,6 +965,12 @@ def exec_load(cx, head, tail):
                 if e[0] != want:
                     errs.append(f"load: record {len(recs) - 1}: core reader reports `{cr}`, Python gives {e[0]}")
                 break
+            if kind == "greedy" and fobj.over > 0 and e[0] in ("OSError", "ValueError"):
+                # the file object broke the contract of read(): an I/O error at the record being read, or
+                # (the error having been met while a reader was looking for the start of a record) a
+                # parse error at the bytes that follow — an ordinary exception either way
+                recs.append(("io", "OSError") if e[0] == "OSError" else ("parse", "ValueError"))
+                break
             if e[0] != "ok":
                 recs.append(("ok", e[0]))
                 errs.append(f"load: record {len(recs) - 1} raised {e[0]} ({e[1]}), the core reader parses it")
@@ -988,7 +1003,11 @@ def exec_load(cx, head, tail):
             + " ".join(f"{k} {o}" for k, o in recs) + f" | {hexs(data)}{extra}")
     if kind in ("chunked", "boundary") and g[0] == "ok":
         cx.out.stat("load/short-reads", fobj.short)
-    nontrivial = len(recs) >= 2 or (kind in ("chunked", "boundary") and len(recs) >= 1 and fobj.short >= 1)
+    if kind == "greedy" and g[0] == "ok":
+        cx.out.stat("load/over-long-reads", fobj.over)
+        if fobj.over > 0 and not (recs and recs[-1][0] in ("io", "parse")) and not errs:
+            errs.append("load: a read() returned more bytes than requested and no record raised OSError / ValueError (bytes silently dropped)")
+    nontrivial = (kind == "greedy" and g[0] == "ok" and fobj.over > 0) or len(recs) >= 2 or (kind in ("chunked", "boundary") and len(recs) >= 1 and fobj.short >= 1)
     return " ".join(line.split()), "adm-ok", verdict(errs), nontrivial, key
 
 
@@ -1250,7 +1269,12 @@ def load_cases(rng, fmt, prot, data, cuts):
     object whose read returns bytearray / memoryview"""
     c = ",".join(str(x) for x in cuts) or "-"
     kinds = ["path", "binary", "chunked", "boundary", rng.pick(["bytearray", "memoryview"])]
-    return [f"c17load ? {k} {hexs(fmt)} {prot} 0 | {hexs(data)} {rng.below(1 << 32)} {c}" for k in kinds]
+    out = [f"c17load ? {k} {hexs(fmt)} {prot} 0 | {hexs(data)} {rng.below(1 << 32)} {c}" for k in kinds]
+    if data and rng.chance(1, 4):
+        # the file repeated past the reader's buffer size, through a file object returning more than asked
+        big = data * (9000 // len(data) + rng.range(1, 3))
+        out.append(f"c17load ? greedy {hexs(fmt)} {prot} 0 | {hexs(big)} {rng.below(1 << 32)} -")
+    return out
 
 
 def generate(cfg, core, out):
